@@ -36,3 +36,8 @@ CHECKS["C16"] = {"pkg": "crypto", "shards": 12,
     "technique": "differential property-based testing (rapid) against a from-the-spec BIP39/BIP32/BIP44 reference built on the textbook curve, stdlib HMAC/PBKDF2 and x/crypto ripemd160",
     "text": "Generated-input search with a differential oracle: mnemonic generation/validation/entropy recovery/seed derivation, master keys, hardened and normal child derivation to depth 5 with boundary child numbers, xprv/xpub serialisation, N(CKDpriv)==CKDpub(N) and BIP44 paths are compared value-for-value with the reference; invalid sizes, mutated sentences and corrupted encodings must be refused.",
     "note": "ASCII-only sentences and passphrases (NFKD is the identity there); the English list is recovered through the API and pinned by the published SHA-256; IL>=n / zero-key branches are unreachable by sampling (2^-127)"}
+
+CHECKS["C09"] = {"pkg": "txn", "shards": 12, "fuzz": [{"target": "FuzzC09_Decode", "seconds": 90}],
+    "technique": "property-based testing (rapid constructive generator + rule-breaking mutations) against an independent well-formedness predicate; decode/encode round-trip oracle; native go fuzzing of the decoder in thorough",
+    "text": "Generated-input search: Verify()/VerifyUnsigned() must equal an independently written predicate (big-int sums, reference encoder, textbook-curve signature judgement) on well-formed transactions carrying 0-2 targeted rule violations; every byte string either fails to decode or re-encodes identically; 65535/65536-element boundaries are exercised explicitly.",
+    "note": "trusted: reference encoder (harness/internal/ref/txref) and textbook curve; the high-s band of C10 is not generated"}
